@@ -46,7 +46,10 @@ def has_nonfinite(v):
 
 DOC_ATOMS = [b"null", b"true", b"false", b"0", b"-0", b"1.5", b"1e5", b"1E+2", b"-1.25e-3", b"\"s\"", b"\"\\u00e9\\n\"", b"[]", b"{}", b"[1,2]", b"{\"a\":1}",
              b"01", b"1.", b".5", b"+1", b"1e", b"\"\\x\"", b"\"\x01\"", b"[1,]", b"{\"a\":}", b"{a:1}", b"[1 2]", b"nul", b"tru", b"\"abc", b"{\"a\":1,}", b"--1", b"0x10",
-             b"\"\\ud800\"", b"\"\\udc00\\ud800\"", b"1e400", b"-", b"[", b"{\"a\"", b" 1 ", b"\t[ 1 , 2 ]\n", b"1 2", b"{\"a\":1}x", b"\xef\xbb\xbf1", b"\"\xff\""]
+             b"\"\\ud800\"", b"\"\\udc00\\ud800\"", b"1e400", b"-", b"[", b"{\"a\"", b" 1 ", b"\t[ 1 , 2 ]\n", b"1 2", b"{\"a\":1}x", b"\xef\xbb\xbf1", b"\"\xff\"",
+             # raw (unescaped) characters inside string literals and keys: U+2028 / U+2029 and their neighbours, HTML characters, other non-ASCII
+             b"\"a\xe2\x80\xa8b\"", b"\"\xe2\x80\xa9\"", b"\"\xe2\x80\xa7\xe2\x80\xaa\"", b"\"<>&\"", b"\"\xc3\xa9\xe2\x82\xac\xf0\x9f\x98\x80\"",
+             b"{\"k\xe2\x80\xa8\":\"<\xe2\x80\xa9>\"}", b"[ \"a\xe2\x80\xa8b\" , 1 ]", b"\"\xe2\x80\"", b"\"\xe2\""]
 
 def number_shapes():
     """every combination of sign, integer part, fraction and exponent shapes of the JSON number grammar, valid and not"""
